@@ -130,11 +130,11 @@ def fopt(v):
 def run(ctx):
     thorough = ctx.tier == "thorough"
     rng = ctx.rng
-    ctx.proofs(["C01/Props.v", "C01/PropsConsts.v", "C01/PropsLP.v"])
+    ctx.proofs(["C01/Props.v", "C01/PropsConsts.v", "C01/PropsLP.v", "C09/PropsTie.v"])
     warnings.filterwarnings("ignore")
     from quantecon.markov import DiscreteDP
 
-    n_inst = 300 if thorough else 80
+    n_inst = 300 if thorough else 64
     insts = [
         Inst(2, 2, [[Fraction(5), Fraction(10)], [Fraction(-1), None]],
              [[[Fraction(1, 2), Fraction(1, 2)], [Fraction(0), Fraction(1)]], [[Fraction(0), Fraction(1)], [Fraction(1, 2), Fraction(1, 2)]]],
@@ -170,6 +170,8 @@ def run(ctx):
                 form = make_form(inst, kind, rng)
                 ddp = build(form)
                 ctx.count("form:" + kind)
+                if kind != "product":
+                    ctx.count("pair order:" + form.order)
                 inp0 = {"inst": inst.to_json(), "form": kind, "pairs": form.pairs}
                 ctx.case((inst.key(), kind, tuple(form.pairs)), nontrivial=inst.nontrivial(),
                          sample={"form": kind, "n": inst.n, "m": inst.m, "beta": inst.beta, "v*": vstar})
